@@ -112,6 +112,27 @@ def entity : Bytes → Option (UInt8 × Bytes)
   | 0x61 :: 0x70 :: 0x6F :: 0x73 :: 0x3B :: r => some (0x27, r)        -- apos;
   | _ => none
 
+/-- character data or attribute-value content with the predefined entity references replaced and nothing
+    else changed (no normalisation); `none` if it contains `<` or an `&` that does not start a reference -/
+def unescape : Bytes → Option Bytes
+  | [] => some []
+  | 0x3C :: _ => none
+  | 0x26 :: r =>
+    match r with
+    | 0x6C :: 0x74 :: 0x3B :: r' => (unescape r').map (0x3C :: ·)
+    | 0x67 :: 0x74 :: 0x3B :: r' => (unescape r').map (0x3E :: ·)
+    | 0x61 :: 0x6D :: 0x70 :: 0x3B :: r' => (unescape r').map (0x26 :: ·)
+    | 0x71 :: 0x75 :: 0x6F :: 0x74 :: 0x3B :: r' => (unescape r').map (0x22 :: ·)
+    | 0x61 :: 0x70 :: 0x6F :: 0x73 :: 0x3B :: r' => (unescape r').map (0x27 :: ·)
+    | _ => none
+  | b :: r => (unescape r).map (b :: ·)
+
+/-- does every `&` start one of `&lt;` `&gt;` `&amp;` `&quot;` `&apos;`? -/
+def ampsOk : Bytes → Bool
+  | [] => true
+  | 0x26 :: r => (entity r).isSome && ampsOk r
+  | _ :: r => ampsOk r
+
 /-- attribute value, input positioned after the opening `"`; `acc` holds the value so far, reversed -/
 def parseAttValue : Bytes → Bytes → Option (Bytes × Bytes)
   | [], _ => none
